@@ -97,6 +97,9 @@ class DataSet:
                      specified axis
         :param axis: Along which axis to append the data to
         """
+        if getattr(self.dtype, "kind", None) is None:
+            # a DataFrame: convert to its row type first, rows that do not fit must not leave it enlarged
+            data = np.ascontiguousarray(data, dtype=self._h5group.group["data"].dtype)
         data = np.ascontiguousarray(data)
         if len(self.shape) != len(data.shape):
             raise ValueError(
